@@ -135,6 +135,8 @@ pub open spec fn is_finite_budget<S: Stream<Item = RuntimeResult<()>>>(s: S, lim
 }
 pub type BudgetIter = Either<Repeat<RuntimeResult<()>>, Chain<Take<Repeat<RuntimeResult<()>>>, Once<RuntimeResult<()>>>>;
 
+// @@INCLUDE stdx@@
+
 // @@EXTRACTED@@
 
 } // verus!
